@@ -30,6 +30,51 @@ func checkC17(r *core.Run) {
 	c17Lock(r, p)
 	c17Sym(r, p)
 	c17OutLists(r, p)
+	c17MinValueFirst(r, p)
+}
+
+// c17MinValueFirst: building the index from the set and maintaining it afterwards must use the same minimum
+// value: the configured minimum is made effective before the scan starts, not after it (the scan would use
+// the previous minimum while every later add/delete uses the new one).
+func c17MinValueFirst(r *core.Run, p *core.Program) {
+	const rule = "R-C17-sym"
+	fn := p.Func("client/wallet.LoadBalancesFromUtxo")
+	if fn == nil {
+		r.Fail(rule, "minimum-before-scan", "-", "LoadBalancesFromUtxo not found")
+		return
+	}
+	ap := an.CallsTo(fn, false, "client/common.ApplyBalMinVal")
+	var scan []ssa.Instruction
+	for _, f := range an.WithClosures(fn) {
+		if f != fn {
+			continue
+		}
+		an.Instrs(f, func(i ssa.Instruction) {
+			switch x := i.(type) {
+			case *ssa.Range:
+				if an.Atoms(x.X)["field:lib/utxo.UnspentDB.HashMap"] {
+					scan = append(scan, i)
+				}
+			case *ssa.Call:
+				if n := an.CallName(x); n == "client/wallet.NewUTXO" || strings.HasPrefix(n, "lib/utxo.NewUtxoRecStatic") {
+					scan = append(scan, i)
+				}
+			}
+		})
+	}
+	ok := len(ap) == 1 && len(scan) > 0
+	if ok {
+		a := ap[0].(ssa.Instruction)
+		if _, isCall := a.(*ssa.Call); !isCall {
+			ok = false
+		}
+		for _, s2 := range scan {
+			if !(a.Block() == s2.Block() && a.Pos() < s2.Pos() || a.Block() != s2.Block() && a.Block().Dominates(s2.Block())) {
+				ok = false
+			}
+		}
+	}
+	r.Check(ok, rule, "minimum-before-scan", p.Pos(fn.Pos()), fmt.Sprintf("the configured minimum is applied before the %d scan steps", len(scan)), "the configured minimum value is not made effective before the set is scanned: the index is built with one minimum and maintained with another")
 }
 
 // c17OutLists: records are decoded through an allocator callback that supplies the list of output slots;
